@@ -244,7 +244,9 @@ def judge_numeric_impl(ck, lib, b, t, table, callee_of, rid_prefix):
 
 def rule_V(ck, lib):
     n = 0
-    for t in INTS:
+    # the ten integer types of the tree, and any wider one a later commit adds (judged by the same rule)
+    more = [t for t in ("u128", "i128") if (impl_fn(lib, "&microscpi::value::Value<>", t) or impl_fn(lib, "&microscpi::value::Value", t)) is not None]
+    for t in INTS + more:
         b = impl_fn(lib, "&microscpi::value::Value<>", t) or impl_fn(lib, "&microscpi::value::Value", t)
         if not ck.anchor("C03-V", "TryInto<%s> for &Value" % t, b):
             continue
@@ -304,7 +306,7 @@ def rule_V(ck, lib):
         ck.judge(got == {want}, "C03-V", "ref:%s:accepts" % t, "%s accepts only %s" % (t, want), "TryInto<%s> accepts %s" % (t, sorted(got)))
     # any further target type (a conversion added later): one kind of data accepted, delivered as the literal's own text or
     # bytes - bare or wrapped in a constructor -, everything else a data type error; nothing computed from it
-    known = set(INTS) | {"f32", "f64", "bool", "&str", "&[u8]"}
+    known = set(INTS) | {"u128", "i128", "f32", "f64", "bool", "&str", "&[u8]"}
     for b in lib.facts["bodies"]:
         m = re.match(r"<&(?:'\w+ )?microscpi::value::Value<.*> as core::convert::TryInto<(.*)>>$", b.get("trait_ref", ""))
         if not (b.get("trait") == "core::convert::TryInto" and m) or strip_lt(m.group(1)) in known:
@@ -617,7 +619,10 @@ def rule_A(ck, A="C03-A", N="C03-N"):
                         convs.append(e)
                 for j, e in enumerate(convs):
                     src = e[2][0]
-                    okj = src[0] == "payload" and src[2] == SOME and src[1][0] == "call" and src[1][1].endswith("::get") and src[1][2] == (argsp, ("lit", "int", j))
+                    while src[0] in ("ref", "deref") and len(src) == 2:
+                        src = src[1]
+                    okj = (src[0] == "payload" and src[2] == SOME and src[1][0] == "call" and src[1][1].endswith("::get") and src[1][2] == (argsp, ("lit", "int", j))) \
+                        or (src[0] == "index" and pathsum.strip_sites(src)[1:3] == (argsp, ("lit", "int", j)))     # `&args[j]`, behind the count check
                     if not okj:
                         probs.append("conversion #%d reads %s instead of args.get(%d)" % (j, show_term(src), j))
                 if hc:
